@@ -2,5 +2,6 @@
 package props
 
 import (
+	_ "verif/props/c02"
 	_ "verif/props/c11"
 )
